@@ -99,8 +99,8 @@ def random_history(rng, alg, N, length=4):
     """a JSON-able list of operations, drawn from the seed only"""
     small3 = [("ico", int(rng.integers(1, 45))), ("cube3D", int(rng.integers(1, 30))), ("randomS", int(rng.integers(1, 40))),
               ("zero3D", 1)]
-    small4 = [("cube4D", int(rng.integers(1, 13))), ("randomQ", int(rng.integers(1, 25))), ("fulldiv", 8), ("zero4D", 1),
-              ("cube4D", int(rng.integers(13, 31)))]
+    small4 = [("cube4D", int(rng.integers(1, 13))), ("randomQ", int(rng.integers(1, 17))), ("fulldiv", 8), ("zero4D", 1),
+              ("cube4D", int(rng.integers(13, 25)))]
     ops = []
     for _ in range(length):
         kind = rng.choice(["seed", "rand", "make", "get", "selfget", "same", "fullgrid", "polytope"],
@@ -241,8 +241,8 @@ def spec_domain(tier):
     dom = {}
     for alg in ("ico", "cube3D", "randomS"):
         dom[alg] = list(range(1, 61 if quick else 301))
-    dom["randomQ"] = (list(range(1, 41)) + [41, 48, 54, 60]) if quick else list(range(1, 81))
-    dom["cube4D"] = (list(range(1, 41)) + [41, 60]) if quick else list(range(1, 81))
+    dom["randomQ"] = (list(range(1, 31)) + [33, 36, 40, 41, 48, 60]) if quick else list(range(1, 81))
+    dom["cube4D"] = (list(range(1, 31)) + [33, 36, 40, 41, 60]) if quick else list(range(1, 81))
     dom["fulldiv"] = [8, 40]
     dom["zero3D"] = [1]
     dom["zero4D"] = [1]
